@@ -125,6 +125,20 @@ func C01(c *core.Ctx) {
 	c.Rule("C01-R7", "no totals member changes after something was computed from it (shared with C03-R7)", 5)
 	c03TotalsOrder(c, "C01-R7")
 	c01ProductPrecision(c)
+	// R9: a line's tax is computed on the row its combo joins; a combo that joins a row of
+	// another percentage or surcharge has its tax computed at that row's rate (or not at all)
+	c.Rule("C01-R9", "a line's combo joins only the rate row of its own country, percentage, surcharge and extensions (shared with C02-R1/R6)", 3)
+	{
+		sub := core.NewCtx("C02", c.Tier, c.Seed, c.P, c.VerifDir)
+		sub.Quiet = true
+		c02Matching(sub)
+		c02MapEquality(sub)
+		for _, o := range sub.Obligations() {
+			if o.Rule == "C02-R1" || o.Rule == "C02-R6" {
+				c.ObAt("C01-R9", o.Key, o.Pos, o.OK, o.Msg)
+			}
+		}
+	}
 }
 
 // c01RescaleNotScaled — C01-R4: the result of a precision-lowering
